@@ -35,7 +35,7 @@ Definition ipaddr_eqb (a b : ipaddr) : bool :=
 Definition ipnet_eqb (a b : ipnet) : bool :=
   ipaddr_eqb (n_ip a) (n_ip b) && (n_ones a =? n_ones b) && Bool.eqb (n_m16 a) (n_m16 b).
 Definition rules_eqb (a b : rules) : bool :=
-  list_eqb ipnet_eqb (r_allow a) (r_allow b) && list_eqb ipnet_eqb (r_deny a) (r_deny b).
+  opt_eqb (list_eqb ipnet_eqb) (r_allow a) (r_allow b) && opt_eqb (list_eqb ipnet_eqb) (r_deny a) (r_deny b).
 Definition sblock_eqb (a b : sblock) : bool :=
   Bool.eqb (s_v6 a) (s_v6 b) && (s_net a =? s_net b) && (s_len a =? s_len b).
 Definition canon_eqb (a b : bool * N) : bool := Bool.eqb (fst a) (fst b) && (snd a =? snd b).
@@ -97,10 +97,13 @@ Definition check_case (c : case) : N :=
                   && forallb (fun p => Bool.eqb (deny_by_ip mr (Some (fst (fst p)))) (snd (fst p))) probes in
       let sane := rule_queries_ok e && ref_matches e
                   && forallb (fun p => Bool.eqb (ref_admits (e_ref e) (canon (fst (fst p)))) (snd p)) probes in
-      (* not denied by the implementation -> admitted by the reference reading *)
-      let spec := forallb (fun p => snd (fst p) || snd p) probes in
+      (* not denied by the implementation -> admitted by the reference reading; and after a
+         rule error (unusable item, or both options) every address is denied (1cbe751) *)
+      let spec := forallb (fun p => snd (fst p) || snd p) probes
+                  && (mok || forallb (fun p => snd (fst p)) probes) in
       if negb sane then v_disagree else
-      verdict same spec (if mok then None else Some 1) (negb (rules_empty mr) || negb mok)
+      (* no known-finding region is left (F-C12-1 fixed by 1cbe751) *)
+      verdict same spec None (negb (rules_empty mr) || negb mok)
   | CHttp e present auth schemes remote split xff sem ref_admit status hits =>
       let '(mr, mok) := m_rules e in
       let pip := oracle (e_ip e) in
@@ -127,14 +130,16 @@ Definition check_case (c : case) : N :=
                       match lookup schemes auth with Some b => b | None => false end in
       (* [strict]: well-formed rule and every address string of the request is an address both
          for the code (ParseIP after cutting the zone) and for net/netip.  There the decision is
-         fully determined; elsewhere (rule errors = region 1; hostname peers and garbage such as
+         fully determined; elsewhere (rule errors, see below; hostname peers and garbage such as
          "1.2.3.4%eth0", which the code reads as 1.2.3.4 and netip rejects) only the safe
          direction is demanded, so that a fail-closed reading does not alarm. *)
       let strict := mok && forallb (fun s => is_some (pipz s) && is_some (oracle sem s)) strs in
       let spec := if negb present then (hits =? 0) && (status =? 404) else
                   match split with
                   | None => hits =? 0
-                  | Some _ =>
+                  | Some host =>
+                      (* a rule error denies every peer whose address the code can read (1cbe751) *)
+                      if negb mok && is_some (pipz host) then (hits =? 0) && (status =? 403) else
                       if hits =? 0 then
                         if negb admitted_ref then status =? 403
                         else if negb auth_ref then (status =? 401) || (negb strict && (status =? 403))
@@ -153,9 +158,9 @@ Definition check_case (c : case) : N :=
                                                    end
                                        | None => true
                                        end) strs in
-      (* region 1 (F-C12-1): ProcessAccessRules returned an error.  Regions 2 (zone-scoped
-         addresses, f5e2970) and 3 (several field values, 273c6ed) were repaired and removed. *)
-      let region := if negb mok then Some 1 else None in
+      (* no known-finding region is left: F-C12-1 (rule errors, 1cbe751), F-C12-2 (zone-scoped
+         addresses, f5e2970) and F-C12-3 (several field values, 273c6ed) were repaired *)
+      let region : option N := None in
       if negb sane then v_disagree else
       verdict same spec region (present && (negb (rules_empty mr) || negb mok || negb (is_nil auth)))
   | CTcp e present proxy peer ref_admit dials =>
@@ -166,13 +171,13 @@ Definition check_case (c : case) : N :=
                  | TCPAddr (Some ip) => ref_admits (e_ref e) (canon ip)
                  | _ => true
                  end in
-      (* after a rule error only the safe direction is demanded (a fail-closed repair may close) *)
+      (* after a rule error every peer with an address is refused (1cbe751) *)
       let spec := if negb present then dials =? 0 else
                   match peer with
-                  | TCPAddr (Some _) => if adm then (if mok then dials =? 1 else dials <=? 1) else dials =? 0
+                  | TCPAddr (Some _) => if negb mok then dials =? 0 else if adm then dials =? 1 else dials =? 0
                   | _ => dials <=? 1
                   end in
       let sane := rule_queries_ok e && ref_matches e && Bool.eqb adm ref_admit && (proxy <? 3) in
       if negb sane then v_disagree else
-      verdict same spec (if mok then None else Some 1) (present && (negb (rules_empty mr) || negb mok))
+      verdict same spec None (present && (negb (rules_empty mr) || negb mok))
   end.
